@@ -1,0 +1,26 @@
+//go:build verif
+
+package table
+
+import "github.com/lindb/lindb/pkg/bufioutil"
+
+// VerifSeams are the package-level I/O functions of the table package (only compiled with -tags verif).
+type VerifSeams struct {
+	NewMMapStoreReader func(path, fileName string) (Reader, error)
+	NewBufioWriter     func(fileName string) (bufioutil.BufioWriter, error)
+}
+
+// VerifGetSeams returns the current seam functions.
+func VerifGetSeams() VerifSeams {
+	return VerifSeams{NewMMapStoreReader: newMMapStoreReaderFunc, NewBufioWriter: newBufioWriterFunc}
+}
+
+// VerifSetSeams installs seam functions (nil fields keep the current function).
+func VerifSetSeams(s VerifSeams) {
+	if s.NewMMapStoreReader != nil {
+		newMMapStoreReaderFunc = s.NewMMapStoreReader
+	}
+	if s.NewBufioWriter != nil {
+		newBufioWriterFunc = s.NewBufioWriter
+	}
+}
